@@ -11,7 +11,7 @@ Same(i) == LET s == Tr[i].st IN
   /\ Len(asked') = Len(s.asked)
   /\ {asked'[k] : k \in 1..Len(asked')} = {s.asked[k] : k \in 1..Len(s.asked)}
 Step(e) == CASE e.a = "Inv" -> Inv(e.c, e.t) [] e.a = "Body" -> Body(e.t) [] e.a = "Check" -> Check(e.c)
-             [] e.a = "Confirm" -> Confirm(e.t) [] e.a = "Tick" -> Tick [] OTHER -> FALSE
+             [] e.a = "Confirm" -> Confirm(e.t) [] e.a = "ConfirmOos" -> ConfirmOos(e.t) [] e.a = "Tick" -> Tick [] OTHER -> FALSE
 Match == /\ l < Len(Tr) /\ Tr[l+1].act.a # "init" /\ Tr[l+1].skip = ""
          /\ Step(Tr[l+1].act) /\ Same(l+1) /\ l' = l + 1 /\ UNCHANGED rej
 TStart(i) == /\ body' = [t \in Tx |-> FALSE] /\ reqAt' = [t \in Tx |-> -1] /\ trk' = [c \in Conn |-> {}]
